@@ -1169,14 +1169,223 @@ class OptionSuite(Suite):
         return case["opt"] != "default"
 
 
-SUITES = [LazySuite(), ChainSuite(), MapSuite(), LayoutSuite(), OptionSuite()]
+# ----------------------------------------------------------------------------- sequences of chaining / slicing / indexing operations over SEVERAL live objects
+
+SEQ_SHAPES = ["nest-behind", "nest-first", "shared-member", "repeat-member", "slice-chain", "deep", "random"]
+
+
+def seq_expected(case, bases):
+    """contents of every object of a sequence case, from the description alone: object k < len(sizes) is directory k (its files in the order `bases[k]`),
+    every constructing operation appends one object (chain = concatenation of its members in order, slice = Python slice of its source)"""
+    objs = [list(b) for b in bases]
+    for op in case["ops"]:
+        if op["op"] == "chain":
+            objs.append([m for i in op["of"] for m in objs[i]])
+        elif op["op"] == "slice":
+            a, b, c = op["sl"]
+            objs.append(objs[op["on"]][a:b:c])
+    return objs
+
+
+class SequenceSuite(Suite):
+    """Operation SEQUENCES with state carried between objects: populations are chained, the chains are chained again (in first / later position, the same
+    chain in several later chains or twice in one), sliced and re-chained, and ALL objects stay in use: after every step earlier objects are asked again
+    (len, index, negative index, iteration) and at the end every object is audited against the concatenation its description denotes."""
+    name = "c19.sequence"
+    case_timeout = 60
+
+    @staticmethod
+    def _script(rng, shape):
+        nb = rng.randint(2, 4)
+        sizes = [rng.choice([0, 1, 1, 2, 3, 5]) for _ in range(nb)]
+        for k in rng.sample(range(nb), 2):          # at least two non-empty directories
+            sizes[k] = sizes[k] or rng.randint(1, 4)
+        lens, ops = list(sizes), []
+
+        def use(ids):                                # earlier objects asked again between the constructing steps
+            for i in ids:
+                kind = rng.choice(["get", "get", "len", "iter"])
+                if kind == "get":
+                    ops.append({"op": "get", "on": i, "key": rng.randint(-lens[i] - 1, lens[i])})
+                else:
+                    ops.append({"op": kind, "on": i})
+
+        def chain(of):
+            ops.append({"op": "chain", "of": list(of), "how": rng.choice(["to_population", "to_population", "ChainTrees"])})
+            lens.append(sum(lens[i] for i in of))
+            use(rng.sample(of, rng.randint(0, min(2, len(of)))))
+            return len(lens) - 1
+
+        def cut(on):
+            n = lens[on]
+            sl = [rng.choice([None, rng.randint(-n - 1, n + 1)]), rng.choice([None, rng.randint(-n - 1, n + 1)]), rng.choice([None, None, 1, 2, -1])]
+            ops.append({"op": "slice", "on": on, "sl": sl})
+            lens.append(len(range(*slice(*sl).indices(n))))
+            return len(lens) - 1
+
+        base = lambda: rng.randrange(nb)
+        full = lambda: rng.choice([k for k in range(nb) if sizes[k]])
+        c1 = chain([base() for _ in range(rng.randint(2, 3))])
+        if shape == "nest-behind":                   # a chain as a later member of another chain
+            chain([full() if rng.random() < 0.8 else base()] + [base() for _ in range(rng.randint(0, 1))] + [c1] + [base() for _ in range(rng.randint(0, 1))])
+        elif shape == "nest-first":
+            chain([c1] + [base() for _ in range(rng.randint(1, 2))])
+        elif shape == "shared-member":               # the same chain as a member of two later chains
+            chain([base(), c1] if rng.random() < 0.5 else [c1, base()])
+            chain([full(), c1, base()][:rng.randint(2, 3)])
+        elif shape == "repeat-member":               # the same chain twice in one chain
+            chain(([base()] if rng.random() < 0.5 else []) + [c1, c1])
+        elif shape == "slice-chain":                 # a slice of a chain chained again, and sliced again
+            s = cut(c1)
+            c2 = chain([full(), s] if rng.random() < 0.6 else [s, base()])
+            cut(c2)
+        elif shape == "deep":                        # chain of chain of chain …
+            c = c1
+            for _ in range(rng.randint(2, 4)):
+                c = chain([base(), c] if rng.random() < 0.6 else [c, base()])
+        else:
+            for _ in range(rng.randint(3, 6)):
+                if rng.random() < 0.3:
+                    cut(rng.randrange(len(lens)))
+                else:
+                    chain([rng.randrange(len(lens)) for _ in range(rng.randint(1, 3))])
+        use(rng.sample(range(len(lens)), min(3, len(lens))))
+        return {"class": f"seq-{shape}", "sizes": sizes, "ops": ops}
+
+    def cases(self, rng, tier, widen):
+        per = 6 if (tier == "thorough" or widen) else 2
+        return [self._script(rng, shape) for shape in SEQ_SHAPES for _ in range(per)]
+
+    def run(self, case):
+        from swcgeom.core import Population, Populations
+        from swcgeom.core.population import ChainTrees
+
+        tmp = tempfile.mkdtemp(prefix="c19s_")
+        ident = lambda t: int(round(float(t.x()[0])))
+
+        def attempt(f):
+            try:
+                return f()
+            except Exception as e:  # noqa: BLE001 - judged by the oracle
+                return f"E:{type(e).__name__}"
+
+        try:
+            with warnings.catch_warnings():
+                warnings.simplefilter("ignore")
+                bases = []
+                for k, n in enumerate(case["sizes"]):
+                    d = os.path.join(tmp, f"d{k}")
+                    write_dir(d, [f"t{i:03d}.swc" for i in range(n)], marker0=1000 * k)
+                    bases.append([1000 * k + file_no(f) for f in Population.find_swcs(d)])
+                lens = [len(e) for e in seq_expected(case, [range(n) for n in case["sizes"]])]
+                with ReadLog() as rl:
+                    objs = [attempt(lambda k=k: Population.from_swc(os.path.join(tmp, f"d{k}"))) for k in range(len(case["sizes"]))]
+                    obs = []
+                    for op in case["ops"]:
+                        if op["op"] == "chain":
+                            mem = [objs[i] for i in op["of"]]
+                            if op["how"] == "ChainTrees":
+                                objs.append(attempt(lambda: Population(ChainTrees([p.trees for p in mem]))))
+                            else:
+                                objs.append(attempt(lambda: Populations(mem).to_population()))
+                            obs.append(objs[-1] if isinstance(objs[-1], str) else "ok")
+                        elif op["op"] == "slice":
+                            objs.append(attempt(lambda: Population(objs[op["on"]][slice(*op["sl"])])))
+                            obs.append(objs[-1] if isinstance(objs[-1], str) else "ok")
+                        elif op["op"] == "get":
+                            obs.append(attempt(lambda: ident(objs[op["on"]][op["key"]])))
+                        elif op["op"] == "len":
+                            obs.append(attempt(lambda: int(len(objs[op["on"]]))))
+                        else:
+                            obs.append(attempt(lambda: [ident(t) for t in objs[op["on"]]]))
+                    # every object that was built, asked at the end: length, every index from both ends (one beyond as well), iteration
+                    audit = []
+                    for o, n in zip(objs, lens):
+                        if isinstance(o, str):
+                            audit.append(None)
+                            continue
+                        audit.append({"len": attempt(lambda: int(len(o))), "gets": [attempt(lambda: ident(o[k])) for k in range(-n - 1, n + 1)],
+                                      "iter": attempt(lambda: [ident(t) for t in o])})
+                    cnt = {}
+                    for f in rl.log:
+                        cnt[f] = cnt.get(f, 0) + 1
+                    twice = sorted(os.path.relpath(f, tmp) for f in cnt if cnt[f] > 1)
+            return {"bases": bases, "obs": obs, "audit": audit, "read_twice": twice}
+        finally:
+            shutil.rmtree(tmp, ignore_errors=True)
+
+    @staticmethod
+    def _what(case, k):
+        nb, j = len(case["sizes"]), len(case["sizes"])
+        if k < nb:
+            return f"directory {k}"
+        for op in case["ops"]:
+            if op["op"] in ("chain", "slice"):
+                if j == k:
+                    return f"object {k} = chain of objects {op['of']} ({op['how']})" if op["op"] == "chain" else f"object {k} = object {op['on']}[{op['sl']}]"
+                j += 1
+        return f"object {k}"
+
+    def oracle(self, case, res):
+        if not isinstance(res, dict) or "exc" in res:
+            return [("sequence-raises", f"{res.get('exc')}: {res.get('msg')}" if isinstance(res, dict) else repr(res)[:200])]
+        try:
+            return self._oracle(case, res)[:3]
+        except Exception as e:  # noqa: BLE001 - a malformed output is a finding, not a crash
+            return [("sequence-malformed", f"{type(e).__name__}: {e}")]
+
+    def _oracle(self, case, res):
+        out, sizes = [], case["sizes"]
+        for k, (b, n) in enumerate(zip(res["bases"], sizes)):
+            if sorted(b) != [1000 * k + i for i in range(n)]:
+                return [("sequence-files", f"find_swcs of directory {k} with {n} files gives {b}")]
+        exp = seq_expected(case, res["bases"])
+        ctx = f"sizes={sizes}, ops={case['ops']}"
+        j = len(sizes)
+        for op, o in zip(case["ops"], res["obs"]):
+            if op["op"] in ("chain", "slice"):
+                if o != "ok":
+                    out.append((f"sequence-{op['op']}-raises", f"building {self._what(case, j)} raised {o} ({ctx})"))
+                j += 1
+                continue
+            e = exp[op["on"]]
+            if op["op"] == "get":
+                want = e[op["key"]] if -len(e) <= op["key"] < len(e) else None
+                if (want is None and not str(o).startswith("E:")) or (want is not None and o != want):
+                    out.append(("sequence-index", f"{self._what(case, op['on'])}: [{op['key']}] gave {o}, it holds {e} ({ctx})"))
+            elif op["op"] == "len" and o != len(e):
+                out.append(("sequence-len", f"{self._what(case, op['on'])}: len gave {o}, it holds {len(e)} trees ({ctx})"))
+            elif op["op"] == "iter" and o != e:
+                out.append(("sequence-iter", f"{self._what(case, op['on'])}: iteration gave {o}, it holds {e} ({ctx})"))
+        for k, (a, e) in enumerate(zip(res["audit"], exp)):
+            if a is None:
+                continue
+            n = len(e)
+            if a["len"] != n:
+                out.append(("sequence-len", f"after the sequence, {self._what(case, k)} has len {a['len']}, it holds {n} trees {e} ({ctx})"))
+            want = ["E"] + e + e + ["E"]              # keys -n-1 … n
+            bad = [(key, g) for key, g, w in zip(range(-n - 1, n + 1), a["gets"], want) if (str(g).startswith("E:") if w != "E" else not str(g).startswith("E:")) or (w != "E" and g != w)]
+            if bad or len(a["gets"]) != len(want):
+                out.append(("sequence-index", f"after the sequence, {self._what(case, k)}: [{bad[0][0] if bad else '?'}] gives {bad[0][1] if bad else a['gets']}, it holds {e} ({ctx})"))
+            if a["iter"] != e:
+                out.append(("sequence-iter", f"after the sequence, {self._what(case, k)} iterates as {a['iter']}, it holds {e} ({ctx})"))
+        if res["read_twice"]:
+            out.append(("read-twice/sequence", f"files {res['read_twice'][:6]} were read more than once ({ctx})"))
+        return out
+
+    def nontrivial(self, case, res):
+        nb = len(case["sizes"])
+        return any(op["op"] == "chain" and any(i >= nb for i in op["of"]) for op in case["ops"])
+
+
+SUITES = [LazySuite(), ChainSuite(), MapSuite(), LayoutSuite(), OptionSuite(), SequenceSuite()]
 TECHNIQUE = ("Lean 4 theorems; _get_idx, LazyLoadingTrees.load/__getitem__/__len__, ChainTrees.__init__/__len__/__getitem__ and NestTrees.__getitem__ are TRANSLATED from "
              "population.py on every run (harness/translate_algo.py → Gen/AlgoPopulation.lean, file reads as a state-passing callback) and proved to compute what the models compute "
              "(RefinePop.*, C19.generated_chain_getitem, C19.generated_load_at_most_once: every history of index requests); the models: the lazy cache as a state machine (every operation history reads each file at most once and only files that were requested or the "
              "construction probe of file 0; index arithmetic incl. negative indices), the binary search of ChainTrees (invariant: returns the member and offset of "
              "the k-th element of the concatenation, empty members allowed; total length) + differential correspondence on operation scripts over real "
              "directories with reads observed (also directories of hundreds of files revisited after a full pass, several populations alive and used alternately, "
-             "chained views over large members) + Population.map under every option with jobs of unequal duration + directory layouts with unusual names (glob / regex metacharacters, dot-names, blanks and non-ASCII, extra dots; in the root, above it, in sub-folders, in file names; roots spelled absolute / relative / with a trailing separator / with redundant separators / through `..`, also each root of one call in its own style, with the matched populations chained) judged against the files written + populations built with reader options (sort_nodes, extra_cols, from_eswc, fix_roots, encoding) reached by index, slice, iteration, map and the chained population + direct oracle")
+             "chained views over large members) + Population.map under every option with jobs of unequal duration + directory layouts with unusual names (glob / regex metacharacters, dot-names, blanks and non-ASCII, extra dots; in the root, above it, in sub-folders, in file names; roots spelled absolute / relative / with a trailing separator / with redundant separators / through `..`, also each root of one call in its own style, with the matched populations chained) judged against the files written + populations built with reader options (sort_nodes, extra_cols, from_eswc, fix_roots, encoding) reached by index, slice, iteration, map and the chained population + operation sequences over several live objects (chains chained again in first / later position, shared by or repeated in later chains, sliced and re-chained, nested several levels; every object asked again after each step and audited at the end) + direct oracle")
 LEVEL_TEXT = ("Kernel-checked for every history of get / load / iterate / len operations: a file is read only when its slot is empty, so at most once, and only "
               "when requested (plus slot 0 at Population construction); get(k) returns file k (k+n for negative k) and raises outside [-n, n). Kernel-checked for "
               "every list of member lengths (zeros allowed): chained length = sum, and chain[k] is element k of the concatenation.")
